@@ -216,39 +216,66 @@ def run_check(pid, tier, seed, workers, deadline_s=None, n_override=None, do_shr
     results = {}
     errors = []
     truncated = 0
-    tasks = [(pid, seed, i, tier) for i in range(n_cases)]
-    if workers <= 1:
-        it = map(_worker, tasks)
-        pool = None
-    else:
-        pool = multiprocessing.Pool(workers)
-        it = pool.imap_unordered(_worker, tasks, chunksize=1)
+    core.sweep_stale_roots()
+    submitted = 0
     done = 0
+    worker_pids = []
+    pool = None
+
+    def absorb(r):
+        idx, viols, counts, st, err = r
+        results[idx] = (viols, counts)
+        if dump is not None:
+            dump[idx] = (st["log"], st["verdict"], err)
+        if err:
+            errors.append("case %d: %s" % (idx, err))
+        agg["runs"] += st["runs"]
+        agg["ops"] += st["ops"]
+        agg["fired"].update(st["fired"])
+        agg["sites"].update(st["sites"])
+        agg["states"].update(st["states"])
+        agg["probes"].update(st["probes"])
+        agg["notes"].update(st["notes"])
+        agg["nontrivial"].update(st["nontrivial"])
+        if len(agg["samples"]) < 4 and st["samples"]:
+            agg["samples"].append(st["samples"][0])
+
     try:
-        for idx, viols, counts, st, err in it:
-            done += 1
-            results[idx] = (viols, counts)
-            if dump is not None:
-                dump[idx] = (st["log"], st["verdict"], err)
-            if err:
-                errors.append("case %d: %s" % (idx, err))
-            agg["runs"] += st["runs"]
-            agg["ops"] += st["ops"]
-            agg["fired"].update(st["fired"])
-            agg["sites"].update(st["sites"])
-            agg["states"].update(st["states"])
-            agg["probes"].update(st["probes"])
-            agg["notes"].update(st["notes"])
-            agg["nontrivial"].update(st["nontrivial"])
-            if len(agg["samples"]) < 4 and st["samples"]:
-                agg["samples"].append(st["samples"][0])
-            if time.monotonic() - t0 > deadline_s:
-                truncated = n_cases - done
-                break
+        if workers <= 1:
+            for i in range(n_cases):
+                if time.monotonic() - t0 > deadline_s:
+                    break
+                submitted += 1
+                absorb(_worker((pid, seed, i, tier)))
+                done += 1
+        else:
+            # Cases are handed out through a bounded window: after the deadline no new case starts, cases in flight finish
+            # normally, so no simulated process is orphaned and no world is left behind.
+            import queue
+            pool = multiprocessing.Pool(workers)
+            worker_pids = [p.pid for p in getattr(pool, "_pool", [])]
+            q = queue.Queue()
+            inflight = 0
+            nxt = 0
+            window = workers * 3
+            while True:
+                while inflight < window and nxt < n_cases and time.monotonic() - t0 <= deadline_s:
+                    pool.apply_async(_worker, ((pid, seed, nxt, tier),), callback=q.put,
+                                     error_callback=lambda e, i=nxt: q.put((i, [], {}, Ctx().export() | {"verdict": []}, "worker: %r" % e)))
+                    nxt += 1
+                    inflight += 1
+                    submitted += 1
+                if inflight == 0:
+                    break
+                absorb(q.get())
+                inflight -= 1
+                done += 1
+        truncated = n_cases - submitted
     finally:
         if pool:
-            pool.terminate()
+            pool.close()
             pool.join()
+        core.remove_roots_of(worker_pids)
     # merge violations in case order
     by_sig = collections.OrderedDict()
     total = 0
